@@ -245,6 +245,12 @@ def run(ctx: Context) -> None:
         ok = len(first) == 1 and const_value(kwarg(first[0], 'distance_metres'), None) == 0 and const_value(kwarg(first[0], 'distance_normalised'), None) == 0 \
             and mq.stmt('$p0 = shapely.Point(self.line.coords[0])') is not None
         ctx.check('R18.5', ok, "the first vertex is at distance 0", pt, first[0] if first else pt.node)
+        # LineString.project gives the FIRST place of the line that is nearest to the point: sound for a simple open path only
+        for f_ in (pt, dl):
+            uses = [c for c in calls_in(f_) if isinstance(c.func, ast.Attribute) and c.func.attr == 'project' and norm_text(c.func.value) == 'self.line']
+            ctx.check('R18.5', not uses, "where a point lies along the path is not decided by LineString.project alone: on a closed path the last vertex projects to 0, "
+                      "on a path that crosses itself a piece ending at the crossing gets the distance of the first passage", f_, uses[0] if uses else f_.node,
+                      construct=f"position along the path from self.line.project: {len(uses)} use(s)")
 
 
 
